@@ -874,4 +874,163 @@ theorem placedWhy_model (hw : StrictWeak W) (o : EpochOpts W) (gen : Int) (p p' 
     simp at hp
   · rfl
 
+/-! ### non-vacuity: a concrete turnover over the toy integer scalar in which a baby joins the surviving species, another
+    founds a new species, and a third joins that new species -/
+
+/-- executable replay of the stages: (prepared population, new population, placement log) -/
+def epochLog (o : EpochOpts W) (gen : Int) (p : Pop W) (rs : List Nat) : Option (Pop W × Pop W × List (Pop W × Org W)) :=
+  match prepareForReproduction o p rs with
+  | .error _ => none
+  | .ok ((p1, ex), rs1) =>
+    match reproduceAll o gen (sortedOf ex p1) p1.species p1.reg p1.nextUid [] rs1 with
+    | .error _ => none
+    | .ok ((babies, reg, uid), _) =>
+      match speciateLoopLog o { p1 with reg := reg, nextUid := uid } babies with
+      | .error _ => none
+      | .ok (p2, log) => some (p1, finalizeReproduction p2, log)
+
+theorem epochLog_of_stages (o : EpochOpts W) (gen : Int) (p p' p1 p2 : Pop W) (ex : ExecState) (rs rs1 rs' : List Nat)
+    (babies : List (Org W)) (reg : Reg W) (uid : Nat) (log : List (Pop W × Org W))
+    (st : Stages o gen p rs p1 ex rs1 babies reg uid p2 log p' rs') : epochLog o gen p rs = some (p1, p', log) := by
+  unfold epochLog
+  rw [st.prep]
+  simp only
+  rw [st.repro]
+  simp only
+  rw [st.log, st.fin]
+
+/-- every distance the search met during the turnover was below its sentinel (the decidable hypothesis `hfin`) -/
+def epochFinite (o : EpochOpts W) (gen : Int) (p : Pop W) (rs : List Nat) : Bool :=
+  match epochLog o gen p rs with
+  | some (_, _, log) => log.all (fun e => finiteAt o e.1.species e.2)
+  | none => false
+
+section NonVacuity
+open GoNeat.ExactInt
+attribute [local instance] intScalar
+
+theorem strictWeak_int : StrictWeak Int := by
+  refine ⟨?_, ?_, ?_⟩
+  · intro a; simp [Scalar.lt, intScalar]
+  · intro a b c; simp only [Scalar.lt, intScalar, decide_eq_true_eq]; omega
+  · intro a b c; simp only [Scalar.lt, intScalar, decide_eq_true_eq]; omega
+
+/-- PopSize 4, threshold 3, distance = difference of the mutation numbers of the single gene; offspring are unmodified
+    copies of a randomly chosen parent (all mutation probabilities zero) -/
+def xOpts : EpochOpts Int :=
+  { popSize := 4, dropOffAge := 15, ageSignificance := 1, survivalThresh := 1, babiesStolen := 0, compatThreshold := 3,
+    compat := ⟨1, 1, 1, false⟩, mutateOnlyProb := 100, mutateAddNodeProb := 0, mutateAddLinkProb := 0,
+    mutateConnectSensors := 0, interspeciesMateRate := 0, mateMultipointProb := 0, mateMultipointAvgProb := 0,
+    mateSinglepointProb := 0, mateOnlyProb := 0,
+    mopts := { recurOnlyProb := 0, newLinkTries := 3, activators := [4], activatorProbs := [1], traitMutationPower := 0,
+               traitParamMutProb := 0, weightMutPower := 0, mutateRandomTraitProb := 0, mutateLinkTraitProb := 0,
+               mutateNodeTraitProb := 0, mutateLinkWeightsProb := 0, mutateToggleEnableProb := 0,
+               mutateGeneReenableProb := 0 } }
+
+def xG (id : Int) (m : Int) : Genome Int :=
+  { id := id, traits := [⟨1, [0]⟩], nodes := [⟨1, Kind.input, 4, some 1⟩, ⟨2, Kind.output, 4, some 1⟩],
+    genes := [⟨1, 1, 2, false, m, m, true, some 1⟩] }
+
+def xOrg (uid : Nat) (fit m : Int) : Org Int :=
+  { uid := uid, fitness := fit, genome := xG uid m, expectedOffspring := 0, generation := 1, originalFitness := 0,
+    highestFitness := 0 }
+
+/-- one species (id 1) of four organisms with mutation numbers 0, 10, 1, 11; its representative is organism 0 -/
+def xPop : Pop Int :=
+  { species := [{ id := 1, age := 3, maxFitnessEver := 0, expectedOffspring := 0, isNovel := false, ageOfLastImprovement := 0,
+                  orgs := [xOrg 0 8 0, xOrg 1 8 10, xOrg 2 8 1, xOrg 3 8 11] }],
+    organisms := [0, 1, 2, 3], lastSpecies := 1, highestFitness := 0, epochsHighestLastChanged := 0,
+    reg := { records := [], nextInn := 1, nextNode := 2 }, nextUid := 4 }
+
+/-- the parents drawn are organisms 1, 0, 3, 2 in this order -/
+def stX : List Nat := (List.range 200).map (fun i => (i % 4) <<< 32)
+
+/-- a population, species by species: (species id, [(allocation id, genome id, mutation numbers)]); `[]` on error -/
+def xView (r : R (Pop Int)) : List (Int × List (Nat × Int × List Int)) :=
+  match r with
+  | .ok (q, _) => q.species.map (fun (s : Species Int) =>
+      (s.id, s.orgs.map (fun (x : Org Int) => (x.uid, x.genome.id, x.genome.genes.map (fun (g : Gene Int) => g.mnum)))))
+  | .error _ => []
+
+/-- the placement log: (ids of the species at the moment of arrival, allocation id of the baby, decision) -/
+def xLogView (o : EpochOpts Int) (l : Option (Pop Int × Pop Int × List (Pop Int × Org Int))) : List (List Int × Nat × Option Nat) :=
+  match l with
+  | some (_, _, log) => log.map (fun e => (e.1.species.map (fun (s : Species Int) => s.id), e.2.uid, placeTarget o e.1 e.2))
+  | none => []
+
+/-- the hypotheses of the theorems of this file hold for the example … -/
+theorem exX_hyps : C02.UidInv xPop ∧ (xPop.species.map (·.id)).Nodup ∧ epochFinite xOpts 1 xPop stX = true :=
+  ⟨⟨by decide, by decide⟩, by decide, by decide +kernel⟩
+
+/-- … the turnover returns: baby 4 (mutation number 10, distance 10 from the representative) FOUNDS species 2 with the fresh id
+    `lastSpecies + 1`; baby 5 (0) JOINS the surviving species 1, whose representative at that moment is the old-generation
+    organism 0; baby 6 (11) joins species 2, whose representative is the founder baby 4 (distance 1; distance 11 from the old
+    representative); baby 7 (1) joins species 1 (distance 1; distance 9 from baby 4).  The old generation is gone. -/
+theorem exX_views :
+    xView (nextEpoch xOpts 1 xPop stX) = [(1, [(5, 0, [0]), (7, 1, [1])]), (2, [(4, 2, [10]), (6, 3, [11])])] ∧
+    xLogView xOpts (epochLog xOpts 1 xPop stX) =
+      [([1], 4, none), ([1, 2], 5, some 0), ([1, 2], 6, some 1), ([1, 2], 7, some 0)] := by
+  decide +kernel
+
+/-- the executable predicate accepts the model's turnover (evaluated by the kernel, independently of `placedWhy_model`) … -/
+example : (epochLog xOpts 1 xPop stX).map (fun r => PopSpec.placedWhy xOpts r.1 r.2.1) = some "" := by decide +kernel
+
+/-- … and rejects it once baby 6 (mutation number 11) is moved into species 1, whose representative is at distance 11, or
+    once the founder of species 2 is exchanged for an organism within the threshold of the old representative: it bites -/
+example : (epochLog xOpts 1 xPop stX).map (fun r => PopSpec.placedWhy xOpts r.1
+      { r.2.1 with species := r.2.1.species.map (fun s =>
+          if s.id = 1 then { s with orgs := s.orgs ++ [xOrg 6 0 11] } else { s with orgs := s.orgs.take 1 }) }) ≠ some "" ∧
+    (epochLog xOpts 1 xPop stX).map (fun r => PopSpec.placedWhy xOpts r.1
+      { r.2.1 with species := r.2.1.species.map (fun s =>
+          if s.id = 2 then { s with orgs := [xOrg 4 0 2] } else s) }) ≠ some "" := by decide +kernel
+
+theorem xView_ok {r : R (Pop Int)} (h : xView r ≠ []) : ∃ p' rs', r = .ok (p', rs') := by
+  match r, h with
+  | .ok (q, rs1), _ => exact ⟨q, rs1, rfl⟩
+  | .error _, h => exact absurd rfl h
+
+/-- the conclusions of (a), (b), (d) instantiated for the example: the stages exist, every species of the new generation is a
+    survivor whose members joined under its old representative or was founded during the turnover, and the executable
+    predicate accepts -/
+example : ∃ p' rs' p1 ex rs1 babies reg uid p2 log,
+    Stages xOpts 1 xPop stX p1 ex rs1 babies reg uid p2 log p' rs' ∧
+    babies.map (·.uid) = [4, 5, 6, 7] ∧ log.map (·.2) = babies ∧
+    (∀ s' ∈ p'.species,
+      (∃ i s1 rep, p1.species[i]? = some s1 ∧ s1.id = s'.id ∧ s1.orgs.head? = some rep ∧ rep.uid ∈ p1.organisms ∧
+        ∀ x ∈ s'.orgs, JoinedE xOpts babies log s'.id i rep x) ∨
+      (xPop.lastSpecies < s'.id ∧ ∃ i f x0 t', p1.species.length ≤ i ∧ s'.orgs = x0 :: t' ∧
+        x0 = { f with genome := { f.genome with id := x0.genome.id } } ∧ FounderE xOpts babies log s'.id f ∧
+        ∀ x ∈ t', JoinedE xOpts babies log s'.id i f x)) ∧
+    (∀ e ∈ log, Nearest xOpts e.1.species e.2 (placeTarget xOpts e.1 e.2)) ∧
+    PopSpec.placedWhy xOpts p1 p' = "" := by
+  obtain ⟨hu, hnd, hfinB⟩ := exX_hyps
+  obtain ⟨p', rs', he⟩ := xView_ok (r := nextEpoch xOpts 1 xPop stX) (by rw [exX_views.1]; simp)
+  obtain ⟨p1, ex, rs1, babies, reg, uid, p2, log, blocks, st, _, _, huids, hlogb⟩ := nextEpoch_speciates_babies xOpts 1 xPop p' stX rs' he
+  have hlog := epochLog_of_stages xOpts 1 xPop p' p1 p2 ex stX rs1 rs' babies reg uid log st
+  have hfin : ∀ e ∈ log, finiteAt xOpts e.1.species e.2 = true := by
+    unfold epochFinite at hfinB
+    rw [hlog] at hfinB
+    exact List.all_eq_true.mp hfinB
+  have hnu : p1.nextUid = 4 := (C02.prepare_spec xOpts xPop p1 ex stX rs1 hnd st.prep).2.1
+  refine ⟨p', rs', p1, ex, rs1, babies, reg, uid, p2, log, st, by rw [huids, hnu]; rfl, hlogb,
+    nextEpoch_species_placed xOpts 1 xPop p' p1 p2 ex stX rs1 rs' babies reg uid log hu hnd st,
+    log_nearest strictWeak_int xOpts log hfin,
+    placedWhy_model strictWeak_int xOpts 1 xPop p' p1 p2 ex stX rs1 rs' babies reg uid log hu hnd st hfin⟩
+
+/-- `spawn`: four copies of one genome (weight-mutation power 1, all draws 0) speciate into one species founded by the first -/
+example : ∃ p rs' orgs p0 log, spawn xOpts (xG 0 0) stX = .ok (p, rs') ∧ speciateLoopLog xOpts p0 orgs = .ok (p, log) ∧
+    p.species.length = 1 ∧
+    ∀ j s', p.species[j]? = some s' →
+      ∃ f t, s'.orgs = f :: t ∧ FoundedAt xOpts log 0 s' f ∧ ∀ y ∈ t, JoinedAt xOpts log j s' y := by
+  have hv : (xView (spawn xOpts (xG 0 0) stX)).map (fun r => (r.1, r.2.length)) = [(1, 4)] := by decide +kernel
+  obtain ⟨p, rs', he⟩ := xView_ok (r := spawn xOpts (xG 0 0) stX) (by intro h0; rw [h0] at hv; cases hv)
+  obtain ⟨orgs, p0, log, _, _, _, _, hlog, _, hall⟩ := spawn_placed xOpts (xG 0 0) p stX rs' he
+  refine ⟨p, rs', orgs, p0, log, he, hlog, ?_, hall⟩
+  rw [he] at hv
+  simp only [xView, List.map_map] at hv
+  have := congrArg List.length hv
+  simpa using this
+
+end NonVacuity
+
 end GoNeat.C08
